@@ -63,6 +63,12 @@ func (j *JobRec) Key() string {
 	return j.Node + "/" + j.Fork + "/" + j.Leaf
 }
 
+// Id identifies the job independently of how its directory is spelled (chunk
+// index instead of the padded chunk directory name).
+func (j *JobRec) Id() string {
+	return fmt.Sprintf("%s/%s/%s/%d", j.Node, j.Fork, j.Phase, j.Chunk)
+}
+
 var uniqSuffix = regexp.MustCompile(`-u([a-f0-9]{10})$`)
 
 // identify fills the identity fields of a job record from the command line that
